@@ -11,6 +11,7 @@ import (
 	"go/ast"
 	"go/token"
 	"go/types"
+	"golang.org/x/tools/go/cfg"
 	"strings"
 )
 
@@ -573,6 +574,10 @@ func (a *copyAnalysis) checkStructResult(res ast.Expr, rs *ast.ReturnStmt, st *t
 					l = ast.Unparen(ix.X)
 					elem = true
 				}
+				// *res.F = v: the pointee made for the field receives its value
+				if st, ok := l.(*ast.StarExpr); ok {
+					l = ast.Unparen(st.X)
+				}
 				sel, ok := l.(*ast.SelectorExpr)
 				if !ok {
 					continue
@@ -641,6 +646,19 @@ func (a *copyAnalysis) checkStructResult(res ast.Expr, rs *ast.ReturnStmt, st *t
 			if a.onlyGuardedBySourceField(x.node, name) {
 				covered, why = true, "assigned whenever the source field is non-empty (zero value otherwise)"
 				break
+			}
+		}
+		if !covered {
+			// stored in every arm of a branch: no way from the entry to this return avoids all
+			// of the (whole-field) stores
+			var stores []ast.Node
+			for _, x := range as {
+				if !x.elem && x.node != ast.Node(lit) {
+					stores = append(stores, x.node)
+				}
+			}
+			if len(stores) > 1 && allPathsCross(fn, rs, stores) {
+				covered, why = true, "assigned on every path to the return (in every arm)"
 			}
 		}
 		if !covered && a.recv != nil {
@@ -843,6 +861,8 @@ func (a *copyAnalysis) onlyGuardedBySourceField(node ast.Node, name string) bool
 		}
 		ok := true
 		mentions := false
+		// a local that only names the source field (v := recv.F; v != nil) reads as the field
+		e = a.fn.InlineLocals(e, 2)
 		ast.Inspect(e, func(n ast.Node) bool {
 			if sel, isSel := n.(*ast.SelectorExpr); isSel {
 				if id, isId := ast.Unparen(sel.X).(*ast.Ident); isId && a.info.ObjectOf(id) == a.recv {
@@ -1068,4 +1088,59 @@ func (a *copyAnalysis) declaredEmpty(v types.Object, baseT types.Type) bool {
 	}
 	t := v.Type()
 	return n == 1 && types.Identical(t, baseT)
+}
+
+// allPathsCross: every CFG path from the function entry to `at` executes one of nodes first.
+func allPathsCross(fn *Func, at ast.Node, nodes []ast.Node) bool {
+	g := fn.CFG()
+	tb := fn.BlockOf(at)
+	if g == nil || tb == nil || len(g.Blocks) == 0 {
+		return false
+	}
+	blocked := map[*cfg.Block]bool{}
+	atNode := fn.CFGNodeOf(at)
+	for _, n := range nodes {
+		b := fn.BlockOf(n)
+		if b == nil {
+			return false
+		}
+		if b == tb {
+			// must come before `at` within the block
+			cn := fn.CFGNodeOf(n)
+			in, ia := -1, -1
+			for i, x := range b.Nodes {
+				if x == cn {
+					in = i
+				}
+				if x == atNode {
+					ia = i
+				}
+			}
+			if in >= 0 && ia >= 0 && in < ia {
+				return true
+			}
+			continue
+		}
+		blocked[b] = true
+	}
+	entry := g.Blocks[0]
+	if blocked[entry] {
+		return true
+	}
+	seen := map[*cfg.Block]bool{entry: true}
+	work := []*cfg.Block{entry}
+	for len(work) > 0 {
+		b := work[len(work)-1]
+		work = work[:len(work)-1]
+		if b == tb {
+			return false
+		}
+		for _, sc := range b.Succs {
+			if !seen[sc] && !blocked[sc] {
+				seen[sc] = true
+				work = append(work, sc)
+			}
+		}
+	}
+	return true
 }
